@@ -7,7 +7,8 @@ RULE = ("pools of fragments handed to clone.CircularLigate, and parts handed to 
         "orientation, dead-end decoys; carriers linear or circular, at a random rotation, on a random strand, 20% in lower case, releasing one, "
         "two or three fragments each, with extra sites whose outer copy is cut away and site pairs that release a piece of backbone; "
         "inserts up to 500 (thorough: 2000) bases; a 300-base backbone followed by short alternatives and a decoy; one circular carrier at "
-        "EVERY rotation); every pool of <= N fragments over three overhangs for three overhang alphabets (plain / with a "
+        "EVERY rotation; GoldenGate histories inside one process: a carrier's sequence text first in its other topology, "
+        "then the assembly proper, origin inside the insert / a site / the backbone, each call judged for its own topology); every pool of <= N fragments over three overhangs for three overhang alphabets (plain / with a "
         "reverse-complement pair / with a palindrome) (exhaustive); pools whose overhangs close cycles that exclude the seed (<= 6 "
         "fragments, 10 s deadline per request of four calls); duplicated fragments; palindromic overhangs; self-closing and both-way fragments; random "
         "pools. The verdict is decided from the pool (Spec.Rings.designed), not from the generator's label. non-trivial = at least two "
@@ -230,14 +231,14 @@ def site_count(enz, w, circ):
     return (sum(1 for i in range(len(ww) - 5) if ww[i:i + 6] == site), sum(1 for i in range(len(ww) - 5) if ww[i:i + 6] == rsite))
 
 
-def part_item(r, enz, segs, shape=None, rot=None, pflip=None, lc=None):
+def part_item(r, enz, segs, shape=None, rot=None, pflip=None, lc=None, cyclic=False):
     """`shape,rot,pflip,lc,segs` or None when the layout contains an accidental recognition site"""
     body, nf, nr = layout_body(enz, segs)
     if shape is None:
         shape = r.choice("CL")
     if shape == "C" and len(body) == 0:
         return None
-    if site_count(enz, body, shape == "C") != (nf, nr):
+    if site_count(enz, body, shape == "C" or cyclic) != (nf, nr):
         return None
     if rot is None:
         rot = r.randrange(0, len(body)) if shape == "C" else 0
@@ -316,6 +317,52 @@ def rotation_sweep(r, enz, tag, pflip):
     for rot in range(len(body)):
         it = part_item(r, enz, segs, shape="C", rot=rot, pflip=pflip, lc=0)
         yield ["gg", tag, enz, it + ";" + other, "1 0", "0 1", "1 0"]
+
+
+def ggtwin_case(r, enz, where=None):
+    """a GoldenGate HISTORY in one process: first the parts with one carrier in its OTHER topology (the same sequence text
+    read as a plasmid instead of a linear piece, or the reverse), then the assembly proper.  The carrier text is rotated so
+    that its origin falls inside the insert (the linear reading releases nothing, the circular one the fragment), inside a
+    recognition site (the linear reading loses that site) or in the backbone (both readings agree)."""
+    site, skip = ENZ[enz]
+    avoid = (site, rc(site))
+    k = r.randint(1, 3)
+    ring, extra = design(r, k, 2, strict=True, decoys=r.choice([0, 1]), avoid=avoid, minseq=8, budget=40)
+    frags = ring + extra
+    t = r.randrange(len(ring))
+    items = []
+    for i, f in enumerate(frags):
+        for _ in range(100):
+            if i != t:
+                it = part_item(r, enz, carrier_segs(r, enz, [f], extra_sites=False))
+            else:
+                padL = seqword(r, 0, 12, avoid)
+                seg = seg_insert(r, f, skip)
+                segs = ["p:" + padL, seg, "p:" + seqword(r, 12 + 2 * skip, 40, avoid)]
+                body, nf, nr = layout_body(enz, segs)
+                _, _, spec = seg.partition(":")
+                sq, fw, rv, fl, sp1, sp2 = spec.split("/")
+                seq0 = len(padL) + 6 + skip + 4
+                w = where or r.choice(["insert", "insert", "fsite", "rsite", "backbone"])
+                if w == "insert":
+                    # beyond the stretch the forward cut needs contiguous (site, skip, overhang, skip), before the reverse overhang ends
+                    rot = r.randrange(seq0 + skip, seq0 + len(sq) + 5)
+                elif w == "fsite":
+                    rot = len(padL) + r.randrange(1, 6)
+                elif w == "rsite":
+                    rot = seq0 + len(sq) + 4 + skip + r.randrange(1, 6)
+                else:
+                    rot = r.randrange(len(body) - 6, len(body))
+                it = part_item(r, enz, segs, shape=r.choice("CL"), rot=rot, lc=0, cyclic=True)
+            if it:
+                items.append(it); break
+        else:
+            return None
+    perm = list(range(len(items)))
+    r.shuffle(perm)
+    items = [items[i] for i in perm]
+    twin = perm.index(t)
+    return ["ggtwin", "twin", enz, ";".join(items), str(twin)] + perms(r, len(items))
 
 
 def behind_backbone(r, avoid=(), backbone=300):
@@ -509,6 +556,13 @@ def cases(seed, tier):
         if c:
             made += 1
             yield c
+    # histories: the same sequence text first in one topology, then in the other, inside one process
+    made, want = 0, (36 if quick else 400)
+    while made < want:
+        c = ggtwin_case(r, r.choice(list(ENZ)))
+        if c:
+            made += 1
+            yield c
     # circular carriers at every rotation
     sweeps = [("BsaI", 0)] if quick else [(e, pf) for e in ENZ for pf in (0, 1)]
     for enz, pf in sweeps:
@@ -533,7 +587,7 @@ def _nfrag(line):
     f = line.split("\t")
     if f[0] == "lig":
         return f[2].count(";") + 1
-    if f[0] == "gg":
+    if f[0] in ("gg", "ggtwin"):
         return f[3].count(";") + 1
     return 0
 
